@@ -1,4 +1,5 @@
 import IrefVerif.Lemmas.DataUrl
+import IrefVerif.Lemmas.DataUrlComplete
 import IrefVerif.Model.Ctor
 
 /-!
@@ -12,6 +13,11 @@ the original; the borrowed accessors — whose Rust `loop {}` has no exit other 
 delimiter — terminate and return exactly what the offsets give (the termination argument *is*
 the theorem: `parse` has shown the delimiter exists).  `base64::STANDARD` is specified by
 `b64Decode`; that the crate agrees with it is the `dataurl` stream.
+Both directions of "accepted iff a valid URI of the shape": `accept_iff_shape` (the scanner rejects
+no text of the shape — `parse_complete` — and accepts nothing else), with the offsets determined by
+the shape (`accept_offsets`).  The decoder specification is a left inverse of RFC 4648 encoding on
+every octet string (`decoded_encoded`): it rejects no canonical encoding and every octet string
+is the decoded data of some data part.
 -/
 
 namespace IrefVerif.Props.C18
@@ -56,10 +62,69 @@ theorem media_type_chars (url : Text) (d : Delimiters) (h : parse url = some d) 
 theorem decoded_plain (data : Text) : decoded false data = some data := rfl
 theorem decoded_b64 (data : Text) : decoded true data = b64Decode data := rfl
 
+/-- **completeness of acceptance, with the offsets of the shape**: a valid URI of the shape
+`data:` media-type [`;base64`] `,` data is accepted, the cached offsets are the ends of the media
+type and of the delimiter -/
+theorem accept_offsets (mt data : Text) (b : Bool) (hmt : ∀ c ∈ mt, isMediaTypeChar c = true)
+    (hu : accepts .uri (dataPrefix ++ mt ++ (if b then semiBase64 else []) ++ cComma :: data) = true) :
+    accept (dataPrefix ++ mt ++ (if b then semiBase64 else []) ++ cComma :: data) =
+      some { media_type_end := 5 + mt.length, base_64 := b,
+             data_start := 5 + mt.length + (if b then 7 else 0) + 1 } := by
+  unfold accept
+  rw [if_pos hu]
+  exact parse_complete mt data b hmt
+
+/-- **accepted iff a valid URI of the data-URL shape** -/
+theorem accept_iff_shape (url : Text) :
+    (accept url).isSome = true ↔
+      accepts .uri url = true ∧ ∃ (mt data : Text) (b : Bool), (∀ c ∈ mt, isMediaTypeChar c = true) ∧
+        url = dataPrefix ++ mt ++ (if b then semiBase64 else []) ++ cComma :: data := by
+  constructor
+  · intro h
+    obtain ⟨d, hd⟩ := Option.isSome_iff_exists.mp h
+    have hu := accept_is_uri url d hd
+    have hp : parse url = some d := by
+      unfold accept at hd; rw [if_pos hu] at hd; exact hd
+    exact ⟨hu, (url.take d.media_type_end).drop 5, ownedData d url, d.base_64,
+      media_type_chars url d hp, (reassembles url d hp).symm⟩
+  · rintro ⟨hu, mt, data, b, hmt, rfl⟩
+    rw [accept_offsets mt data b hmt hu]; rfl
+
+/-- **the views of an accepted text of the shape are its parts**: media type, flag and data read
+through the cached offsets are the `mt`, `b`, `data` the text was written from -/
+theorem views_of_shape (mt data : Text) (b : Bool) (hmt : ∀ c ∈ mt, isMediaTypeChar c = true) :
+    ∃ d, parse (dataPrefix ++ mt ++ (if b then semiBase64 else []) ++ cComma :: data) = some d ∧
+      d.base_64 = b ∧
+      ownedMediaType d (dataPrefix ++ mt ++ (if b then semiBase64 else []) ++ cComma :: data) = nonEmpty mt ∧
+      ownedData d (dataPrefix ++ mt ++ (if b then semiBase64 else []) ++ cComma :: data) = data := by
+  refine ⟨_, parse_complete mt data b hmt, rfl, ?_, ?_⟩
+  · unfold ownedMediaType
+    congr 1
+    have : ((dataPrefix ++ mt) ++ ((if b then semiBase64 else []) ++ cComma :: data)).take (5 + mt.length) =
+        dataPrefix ++ mt := List.take_left' (by simp [dataPrefix]; omega)
+    simp only [List.append_assoc] at this ⊢
+    rw [this]
+    simp [dataPrefix]
+  · unfold ownedData
+    cases b with
+    | false =>
+      have : ((dataPrefix ++ mt ++ [cComma]) ++ data).drop (5 + mt.length + 0 + 1) = data :=
+        List.drop_left' (by simp [dataPrefix]; omega)
+      simpa using this
+    | true =>
+      have : ((dataPrefix ++ mt ++ semiBase64 ++ [cComma]) ++ data).drop (5 + mt.length + 7 + 1) = data :=
+        List.drop_left' (by simp [dataPrefix, semiBase64]; omega)
+      simpa using this
+
+/-- **decoding inverts RFC 4648 encoding** on every octet string -/
+theorem decoded_encoded (l : List Nat) (h : ∀ b ∈ l, b < 256) : decoded true (b64Encode l) = some l :=
+  b64Decode_encode l h
+
 /-- `data:text/plain;base64,SGk=` -/
 example : parse [0x64,0x61,0x74,0x61,0x3A,0x61,0x3B,0x62,0x61,0x73,0x65,0x36,0x34,0x2C,0x53,0x47,0x6B,0x3D]
     = some { media_type_end := 6, base_64 := true, data_start := 14 } := by decide
 example : b64Decode [0x53, 0x47, 0x6B, 0x3D] = some [0x48, 0x69] := by decide
+example : b64Encode [0x48, 0x69] = [0x53, 0x47, 0x6B, 0x3D] := by decide
 example : b64Decode [0x53, 0x47, 0x6C, 0x3D] = none := by decide   -- non-zero trailing bits
 
 end IrefVerif.Props.C18
